@@ -5,6 +5,7 @@ import (
 	"flag"
 	"fmt"
 	"os"
+	"os/exec"
 	"path/filepath"
 	"regexp"
 	"runtime"
@@ -74,6 +75,114 @@ func runMutant(repo string, m Mutant, timeoutMs int) (failing []string, err erro
 	return failing, nil
 }
 
+// seedOverlay builds the loader overlay for a stored seeded change (a patch file).
+func seedOverlay(repo, patchFile string) (map[string][]byte, error) {
+	data, err := os.ReadFile(patchFile)
+	if err != nil {
+		return nil, err
+	}
+	var files []string
+	for _, ln := range strings.Split(string(data), "\n") {
+		if strings.HasPrefix(ln, "+++ b/") {
+			files = append(files, strings.TrimPrefix(ln, "+++ b/"))
+		}
+	}
+	tmp, err := os.MkdirTemp("", "govc-seed")
+	if err != nil {
+		return nil, err
+	}
+	defer os.RemoveAll(tmp)
+	for _, f := range files {
+		src, err := os.ReadFile(filepath.Join(repo, f))
+		if err != nil {
+			return nil, err
+		}
+		os.MkdirAll(filepath.Dir(filepath.Join(tmp, f)), 0o755)
+		os.WriteFile(filepath.Join(tmp, f), src, 0o644)
+	}
+	cmd := exec.Command("patch", "-p1", "-s", "-i", patchFile)
+	cmd.Dir = tmp
+	if out, err := cmd.CombinedOutput(); err != nil {
+		return nil, fmt.Errorf("patch: %v: %s", err, out)
+	}
+	ov := map[string][]byte{}
+	for _, f := range files {
+		b, err := os.ReadFile(filepath.Join(tmp, f))
+		if err != nil {
+			return nil, err
+		}
+		ov[filepath.Join(repo, f)] = b
+	}
+	return ov, nil
+}
+
+// failingWithOverlay runs the property's obligations on the overlaid tree.
+func failingWithOverlay(repo, prop string, ov map[string][]byte, timeoutMs int) []string {
+	c, err := loadAll(repo, ov)
+	if err != nil {
+		return []string{"load: " + err.Error()}
+	}
+	keys := propKeys(c, prop)
+	res := runProcs(c, keys)
+	obls, _, facts, _ := selectObligations(c, prop, res)
+	dir, _ := os.MkdirTemp("", "govc-mut")
+	defer os.RemoveAll(dir)
+	solveAll(c, obls, facts, dir, timeoutMs, runtime.NumCPU())
+	var failing []string
+	for _, r := range res {
+		if r.err != nil {
+			failing = append(failing, r.fi.Name+":engine: "+r.err.Error())
+		}
+	}
+	for _, ob := range obls {
+		if ob.Status != "unsat" {
+			failing = append(failing, ob.Name)
+		}
+	}
+	return failing
+}
+
+// selftestProperty runs the must-fail corpus of one property (own mutants and stored seeded
+// changes); it returns the number of entries and the ones that were NOT reported.
+func selftestProperty(repo, prop string, timeoutMs int) (n int, missed []string) {
+	ms, _ := loadMutants(verifDir())
+	for _, m := range ms {
+		if m.Property != prop {
+			continue
+		}
+		n++
+		failing, err := runMutant(repo, m, timeoutMs)
+		if err != nil || len(failing) == 0 {
+			missed = append(missed, "mutant "+m.ID)
+		}
+	}
+	dirs, _ := filepath.Glob(filepath.Join(verifDir(), "seeded", "*", "meta.json"))
+	for _, mf := range dirs {
+		data, err := os.ReadFile(mf)
+		if err != nil {
+			continue
+		}
+		var meta struct {
+			Breaks string `json:"breaks_property"`
+		}
+		json.Unmarshal(data, &meta)
+		if meta.Breaks != prop {
+			continue
+		}
+		n++
+		ov, err := seedOverlay(repo, filepath.Join(filepath.Dir(mf), "patch.diff"))
+		if err != nil {
+			// the seed no longer applies to this tree (the code moved on): not counted
+			n--
+			continue
+		}
+		if len(failingWithOverlay(repo, prop, ov, timeoutMs)) == 0 {
+			missed = append(missed, "seed "+filepath.Base(filepath.Dir(mf)))
+		}
+	}
+	return
+}
+
 func cmdSelftest(args []string) {
 	fs := flag.NewFlagSet("selftest", flag.ExitOnError)
 	repo := fs.String("repo", "/repo", "repository")
@@ -123,6 +232,13 @@ func cmdSelftest(args []string) {
 		default:
 			fmt.Printf("MISSED   %-28s no obligation failed\n", m.ID)
 			bad++
+		}
+	}
+	if *prop != "" {
+		ns, missed := selftestProperty(*repo, *prop, *timeout)
+		fmt.Printf("must-fail corpus of %s incl. seeded changes: %d entries, missed: %v\n", *prop, ns, missed)
+		if len(missed) > 0 {
+			bad += len(missed)
 		}
 	}
 	fmt.Printf("selftest: %d mutants, %d not caught as expected\n", n, bad)
